@@ -654,6 +654,14 @@ class Interp(object):
             if t['k'] == 'goto':
                 bbi = t['t']
                 continue
+            if t['k'] == 'call' and t['f'].get('fn') and t['t'] is not None:
+                # the only const fn calls met in promoted constants: range constructors
+                c = t['f']['fn']
+                cargs = [self.operand(st, pf, a) for a in t['args']]
+                if c['path'] == 'core::ops::range::RangeInclusive::<Idx>::new' and len(cargs) == 2:
+                    self.write_place(st, pf, t['dest'], Ag('core::ops::range::RangeInclusive', 0, [cargs[0], cargs[1], Sc(C(0), BOOL)]))
+                    bbi = t['t']
+                    continue
             break
         return Un(ty, 'promoted body not straight-line')
 
